@@ -183,6 +183,11 @@ fn run_conn(id: u64, limit: u64, stream: &[u8], ops: &[Arg], out: &mut Vec<Strin
     let mut conn = HttpConnection::new(m);
     conn.set_payload_max_size(limit as usize);
     let mock = |f: &mut dyn FnMut(&mut mock::Inner)| f(&mut shared.borrow_mut());
+    // shadow mode (first op is (12)): from the first parse error on, a freshly created connection
+    // with the same limit is fed exactly the bytes and descriptors the main connection receives
+    let shadow_mode = !ops.is_empty() && ops[0].l()[0].n() == 12;
+    let mut shadow: Option<(HttpConnection<Mock>, std::rc::Rc<std::cell::RefCell<mock::Inner>>)> = None;
+    let mut cur_limit = limit as usize;
     for (i, op) in ops.iter().enumerate() {
         let l = op.l();
         let pre = format!("conn {} {} ", id, i);
@@ -197,10 +202,14 @@ fn run_conn(id: u64, limit: u64, stream: &[u8], ops: &[Arg], out: &mut Vec<Strin
                     };
                     let mut before = 0;
                     let mut exhausted = false;
+                    let mut pos_before = 0;
+                    let mut tag_before = 0;
                     mock(&mut |s| {
                         s.read_plan = Some(plan.clone());
                         before = s.recv_calls;
                         exhausted = s.pos >= s.rest.len();
+                        pos_before = s.pos;
+                        tag_before = s.next_tag;
                     });
                     if l[0].n() == 2 && exhausted {
                         break;
@@ -219,7 +228,7 @@ fn run_conn(id: u64, limit: u64, stream: &[u8], ops: &[Arg], out: &mut Vec<Strin
                         popped.push(req);
                     }
                     drop(popped);
-                    lines.push(format!(
+                    let mut line = format!(
                         "{}rd={} sys={} held={} pend={}{}",
                         pre,
                         rd_s(&r),
@@ -227,7 +236,63 @@ fn run_conn(id: u64, limit: u64, stream: &[u8], ops: &[Arg], out: &mut Vec<Strin
                         conn.verif_digest()[8],
                         conn.pending_write() as u8,
                         reqs
-                    ));
+                    );
+                    if shadow_mode {
+                        if let Some((sc, sm)) = shadow.as_mut() {
+                            // replay on the shadow what the main connection just received
+                            let mut got: Vec<u8> = vec![];
+                            let mut ntags = 0;
+                            mock(&mut |s| {
+                                got = s.rest[pos_before..s.pos].to_vec();
+                                ntags = s.next_tag - tag_before;
+                            });
+                            {
+                                let mut m = sm.borrow_mut();
+                                m.rest = got.clone();
+                                m.pos = 0;
+                                m.next_tag = tag_before;
+                                m.read_plan = Some(match &plan {
+                                    ReadPlan::Fail(e) => ReadPlan::Fail(*e),
+                                    ReadPlan::Take(_, _) => ReadPlan::Take(got.len(), ntags),
+                                });
+                            }
+                            let sr = if after - before == 0 {
+                                // the main call made no recvmsg at all; nothing to replay
+                                Ok(())
+                            } else {
+                                sc.try_read()
+                            };
+                            let mut sreqs = String::new();
+                            let mut spopped = vec![];
+                            while let Some(req) = sc.pop_parsed_request() {
+                                sreqs.push_str(" | ");
+                                sreqs.push_str(&request_s(&req, &files_s(&req)));
+                                spopped.push(req);
+                            }
+                            drop(spopped);
+                            let left = {
+                                let m = sm.borrow();
+                                m.rest.len() - m.pos
+                            };
+                            line.push_str(&format!(
+                                " || rd={} held={} left={}{}",
+                                rd_s(&sr),
+                                sc.verif_digest()[8],
+                                left,
+                                sreqs
+                            ));
+                            if let Err(micro_http::ConnectionError::ParseError(_)) = sr {
+                                // the shadow restarts too: from here on compare against a new one
+                            }
+                        } else if let Err(micro_http::ConnectionError::ParseError(_)) = r {
+                            let m = Mock::new(vec![]);
+                            let sh = m.s.clone();
+                            let mut sc = HttpConnection::new(m);
+                            sc.set_payload_max_size(cur_limit);
+                            shadow = Some((sc, sh));
+                        }
+                    }
+                    lines.push(line);
                     if l[0].n() != 2 || r.is_err() {
                         break;
                     }
@@ -276,8 +341,13 @@ fn run_conn(id: u64, limit: u64, stream: &[u8], ops: &[Arg], out: &mut Vec<Strin
             }
             10 => {
                 conn.set_payload_max_size(l[1].n() as usize);
+                cur_limit = l[1].n() as usize;
+                if let Some((sc, _)) = shadow.as_mut() {
+                    sc.set_payload_max_size(cur_limit);
+                }
                 format!("{}lim", pre)
             }
+            12 => String::new(),
             _ => format!("{}?", pre),
         }));
         match line {
@@ -297,6 +367,10 @@ fn run_conn(id: u64, limit: u64, stream: &[u8], ops: &[Arg], out: &mut Vec<Strin
     // descriptor accounting: after dropping the connection nothing the mock issued stays open
     let mut issued = vec![];
     mock(&mut |s| issued = s.issued_fds.clone());
+    if let Some((sc, sm)) = shadow.take() {
+        issued.extend(sm.borrow().issued_fds.iter().cloned());
+        drop(sc);
+    }
     drop(conn);
     let leaked = issued.iter().filter(|fd| mock::fd_is_open(**fd)).count();
     if leaked > 0 {
